@@ -892,6 +892,10 @@ def stmt_end(toks, k):
 
 
 ANCHOR_REPORT = []
+# markers around spliced proof hints (loop invariants, proof blocks): a failure located between them is a
+# failure of the proof hint, not of the function's contract
+GB = '/*vxg<*/'
+GE = '/*>vxg*/'
 
 
 def splice(text, sections, where):
@@ -925,7 +929,7 @@ def splice(text, sections, where):
                     if not m:
                         raise ExtractError('anchor-lost', '%s: no `in` in for header' % w)
                     inserts.append((m.end(), order, ' ' + a[5:] + ':'))
-            inserts.append((br_off, order + 0.5, '\n' + body.rstrip() + '\n'))
+            inserts.append((br_off, order + 0.5, '\n' + GB + body.rstrip() + GE + '\n'))
         elif kind in ('before', 'after'):
             check_ghost('stmt', body, w)
             n = int(args[0])
@@ -947,20 +951,20 @@ def splice(text, sections, where):
                         break
                 ANCHOR_REPORT.append((where, kind, n, pat, ordn, sel))
             if kind == 'before':
-                inserts.append((toks[k][2], order, body.rstrip() + '\n'))
+                inserts.append((toks[k][2], order, GB + body.rstrip() + GE + '\n'))
             else:
                 e = stmt_end(toks, k)
-                inserts.append((toks[e][3], order, '\n' + body.rstrip() + '\n'))
+                inserts.append((toks[e][3], order, '\n' + GB + body.rstrip() + GE + '\n'))
         elif kind == 'start':
             check_ghost('stmt', body, w)
             if st['body_open'] is None:
                 raise ExtractError('bad-template', '%s: no body' % w)
-            inserts.append((st['body_open'] + 1, order, '\n' + body.rstrip() + '\n'))
+            inserts.append((st['body_open'] + 1, order, '\n' + GB + body.rstrip() + GE + '\n'))
         elif kind == 'end':
             check_ghost('stmt', body, w)
             if st['body_close'] is None:
                 raise ExtractError('bad-template', '%s: no body' % w)
-            inserts.append((st['body_close'], order, body.rstrip() + '\n'))
+            inserts.append((st['body_close'], order, GB + body.rstrip() + GE + '\n'))
         else:
             raise ExtractError('bad-template', '%s: unknown section' % w)
     if retname:
@@ -1118,6 +1122,19 @@ def assemble(verif_root, repo_root, unit, out_path):
 
 
 TRUST_PAT = re.compile(r'(assume_specification|external_body|external_fn_specification|external_type_specification|\badmit\s*\(|\bassume\s*\(|verifier::truncate|verifier::external\b|uninterp\b|verifier::nonlinear|verifier::spinoff_prover)')
+
+
+def ghost_lines(text):
+    """set of 1-based line numbers of the assembled file that lie inside spliced proof hints"""
+    res = set()
+    depth = 0
+    for i, l in enumerate(text.split('\n')):
+        opens = l.count(GB)
+        closes = l.count(GE)
+        if depth > 0 or opens:
+            res.add(i + 1)
+        depth += opens - closes
+    return res
 
 
 def scan_trusted(text):
